@@ -8,11 +8,17 @@
     out: {"zp":[v], "th":[t][v], "iso":[t][v], "gap":[t][v], "adia":[t][v]}
          = zero_point_contribution, thermal_contribution, value_isothermal, isothermal_to_adiabatic, value_adiabatic
   op "c01.avg"   in: x[q][m], w[q]   out: average_over_modes(x, w)   (one float)
+  op "c01.avgsrc" in: x[q][m], w[q]  out: the TRANSLATED method `average_over_modes(self, amount)` → module function → reduction tree
+                  (`Generated.NonShearGlue`, evaluated by `CijModel/NSGlue.lean`) on the same array; "error:tree" when the tree is
+                  outside the evaluator
+  op "c01.masksrc" in: t[t], x[t][v]  out: the translated `ret[…] = 0` statements of thermal_contribution applied to x
   Shapes that numpy would refuse to broadcast are answered with the string "error:shape".
 -/
 import CijModel.Wire
 import CijModel.NonShear
-open Lean Cij.Wire Cij.NonShear
+import CijModel.NSGlue
+import Generated.NonShearGlue
+open Lean Cij.Wire Cij.NonShear Cij.NSGlue Generated.NonShearGlue
 
 namespace Cij.Ops.C01
 
@@ -69,6 +75,18 @@ def handle : Handler := fun op j =>
       let x ← floats2 (← field j "x")
       let w ← floats1 (← field j "w")
       pure (floatToJson (averageOverModes x w))
+  | "c01.avgsrc" => some do
+      let x ← floats2 (← field j "x")
+      let w ← floats1 (← field j "w")
+      match (methodAvg avgMethod avgTree clearSpec x w).scalar? with
+      | some a => pure (floatToJson a)
+      | none => pure (Json.str "error:tree")
+  | "c01.masksrc" => some do
+      let t ← floats1 (← field j "t")
+      let x ← floats2 (← field j "x")
+      match applyMasks masksThLong t x, applyMasks masksThOff t x with
+      | some a, some b => pure (Json.mkObj [("long", jFloats2 a), ("off", jFloats2 b)])
+      | _, _ => pure (Json.str "error:mask")
   | _ => none
 
 end Cij.Ops.C01
